@@ -184,10 +184,13 @@ def run_case(case):
     cur = {}
 
     def upd(name, val, tol):
+        # NaN-safe: a non-finite observation violates the clause (NaN > 1 would be False)
         r = float(val) / tol
+        if not np.isfinite(r):
+            r = float("inf")
         if name not in cur or r > cur[name]:
             cur[name] = r
-        return r > 1.0
+        return not (r <= 1.0)
 
     def commit(mech):
         # margins of comparisons that fall under a listed singular mechanism are kept apart, so that
